@@ -188,6 +188,7 @@ CallFixed    == [][call' = call]_vars
 \* ---------------------------------------------------------------- constant sets for the cfg files
 BracketsK4 == {<<0, 16>>, <<4, 12>>, <<2, 14>>, <<0, 8>>, <<5, 16>>}
 BracketsK5 == {<<0, 32>>, <<8, 24>>, <<2, 30>>, <<0, 16>>, <<5, 32>>, <<3, 19>>}
+BracketsK5s == {<<0, 32>>, <<8, 24>>, <<5, 32>>}
 TolsAll    == {<<2, 0>>, <<0, 2>>, <<2, 2>>, <<4, 1>>}
 TolsQ      == {<<2, 0>>, <<0, 2>>, <<2, 2>>}
 BracketsQ  == {<<0, 16>>, <<5, 16>>}
